@@ -178,6 +178,7 @@ func factorisations(n int, maxRank int) [][]int {
 }
 
 func genC13(tier string, r *rng, emit func(string)) {
+	intPoolMotifs(emit)
 	// a Reshape that is refused (non-contiguous view) must not have moved anything first, also
 	// when the view carries a pending lazy transpose
 	for _, c := range []string{"new:rm:3,4:0;slice:0:_/1.3.1;T:1:1,0;reshape:1:6", "new:rm:3,4:0;slice:0:_/0.2.1;T:1:1,0;reshape:1:2,3",
